@@ -21,7 +21,7 @@ import (
 func init() {
 	register(&Prop{
 		ID: "C20", Level: "exploration",
-		Rule: "for the seven settings (port, dbPath, maxDirCount, rootDirs, gcPeriod, numWorkers, sendDuration) every state of the file source {no file, key absent, valid, malformed} and of the environment source {unset, empty, valid, malformed where a malformed value exists}: all single-setting and pairwise combinations with the other settings at seeded states, plus seeded full combinations; the harness writes the YAML file, sets the process environment of a child process, calls the real config.ParseConfig and compares with a model of the documented precedence (values are distinct per source so provenance is visible; a malformed value in effect must be an error). Also Storage.Valid on {empty path, empty roots, limits 0/99/100/101/1e6} and ParseConfig -> inline.Open -> ParseConfig (documented defaults must survive). evaluations = ParseConfig/Valid calls compared; distinct_nontrivial = distinct (setting, file state, env state) triples + distinct pairs of such triples exercised",
+		Rule:        "for the seven settings (port, dbPath, maxDirCount, rootDirs, gcPeriod, numWorkers, sendDuration) every state of the file source {no file, key absent, valid, malformed} and of the environment source {unset, empty, valid, malformed where a malformed value exists}: all single-setting and pairwise combinations with the other settings at seeded states, plus seeded full combinations; the harness writes the YAML file, sets the process environment of a child process, calls the real config.ParseConfig and compares with a model of the documented precedence (values are distinct per source so provenance is visible; a malformed value in effect must be an error). Also Storage.Valid on {empty path, empty roots, limits 0/99/100/101/1e6} and ParseConfig -> inline.Open -> ParseConfig (documented defaults must survive). evaluations = ParseConfig/Valid calls compared; distinct_nontrivial = distinct (setting, file state, env state) triples + distinct pairs of such triples exercised",
 		Assumptions: []string{"40-line model of the documented defaults and precedence"},
 		Roles: map[string]Role{
 			"combos": {N: func(t string) int { return 16 }, Case: c20Combos},
